@@ -46,6 +46,10 @@ var hostileNames = []taggedArg{
 	{"../../HEAD", []string{"name:escapes-refs", "ref-name-hostile"}},
 	{"../../index", []string{"name:escapes-refs", "ref-name-hostile"}},
 	{".hidden", []string{"name:dot-leading"}},
+	{"x: y", []string{"name:has-colon-space"}},
+	{"a b", []string{"name:has-space"}},
+	{"x\ny", []string{"name:has-newline", "ref-name-hostile"}},
+	{"t\tu", []string{"name:has-tab"}},
 }
 
 func stateTags(a *Abs) []string {
